@@ -287,7 +287,7 @@ hist_op = st.one_of(
 history = st.fixed_dictionaries({
     'init': content, 'header': st.one_of(st.none(), st.lists(simple_text.map(
         lambda t: t.replace('\n', '')).filter(lambda t: t != ''), min_size=1, max_size=2)),
-    'ops': st.lists(hist_op, min_size=2, max_size=7)})
+    'ops': st.lists(hist_op, min_size=2, max_size=7), 'peek': st.booleans()})
 
 
 def check_history(case):
@@ -314,12 +314,10 @@ def check_history(case):
             tb += real(arg)
             model = model + ref_lines(arg)
         elif op == 'add':
-            old = tb
             new = tb + real(arg)
-            expect(old.lines == model, f'step {i}: left operand of + changed', 'hist-add-mutates')
+            observe(i)  # the old block still renders its own text
             expect(new.lines == model + ref_lines(arg), f'step {i}: + gives {new.lines!r}',
                    'hist-add')
-            observe(i)  # the old block still renders its own text
         elif op == 'nest':
             if hdr:  # what a nested block does with its header is not part of the statement
                 continue
@@ -335,9 +333,13 @@ def check_history(case):
             model = ref_trim(model, op == 'trim_end')
         elif op == 'str':
             observe(i)
-        expect(tb.lines == model, f'step {i} ({op}): lines {tb.lines!r} != {model!r}',
-               'hist-lines')
+        if case.get('peek', True) or op == 'lines':
+            # looking at .lines is itself an access the block may react to: only some histories
+            # do it after every step
+            expect(tb.lines == model, f'step {i} ({op}): lines {tb.lines!r} != {model!r}',
+                   'hist-lines')
     observe('end')
+    expect(tb.lines == model, f'end: lines {tb.lines!r} != {model!r}', 'hist-lines')
     if not hdr:
         expect(TextBlock([tb]).lines == model, 'nesting after the history loses lines', 'hist-nest')
 
